@@ -21,6 +21,9 @@ pub enum Op {
 pub struct Scn {
     pub epoch_ns: u64,
     pub rules: Vec<AnySpec>,
+    /// optional rule of a second family, loaded (load-all) before the rules under test: interactions between slots
+    #[serde(default)]
+    pub extra: Option<AnySpec>,
     /// 0 load-all, 1 load-for-resource, 2 append
     pub entry_point: u8,
     pub ops: Vec<Op>,
@@ -136,6 +139,19 @@ impl Prop for C12 {
             }
         }
         let entry_point = rng.below(3) as u8;
+        let extra = if rng.chance(1, 3) {
+            let f2 = (fam + rng.range(1, 4) as usize) % 5;
+            let xid = format!("x_{:x}", rng.below(0xffff));
+            let mut e = gen_rule(rng, f2, &res, xid);
+            if avoid {
+                if let AnySpec::Flow(f) = &mut e {
+                    f.relation = 0;
+                }
+            }
+            Some(e)
+        } else {
+            None
+        };
         let nops = rng.range(3, 12);
         let mut ops = vec![];
         for _ in 0..nops {
@@ -164,7 +180,7 @@ impl Prop for C12 {
                 _ => ops.push(Op::Adv { ms: *rng.pick(&[0u64, 1, 499, 500, 1000, 10_000, 600_000]) }),
             }
         }
-        serde_json::to_value(Scn { epoch_ns, rules, entry_point, ops }).unwrap()
+        serde_json::to_value(Scn { epoch_ns, rules, extra, entry_point, ops }).unwrap()
     }
 
     fn execute(&self, scenario: &Value, cov: &mut Cov) -> RunResult {
@@ -192,6 +208,11 @@ impl Prop for C12 {
                 c.rules.remove(i);
                 out.push(serde_json::to_value(c).unwrap());
             }
+        }
+        if sc.extra.is_some() {
+            let mut c = sc.clone();
+            c.extra = None;
+            out.push(serde_json::to_value(c).unwrap());
         }
         for (i, op) in sc.ops.iter().enumerate() {
             if let Op::Enter { res, n, inb, args, att } = op {
@@ -230,6 +251,20 @@ fn run(sc: &Scn, w: &mut World, tr: &mut Trace, cov: &mut Cov) -> Option<Violati
     let f = FAMILIES[fam];
     let any_valid = sc.rules.iter().any(|r| r.is_valid());
     let kinds: Vec<String> = sc.rules.iter().map(describe).collect();
+    if let Some(e) = &sc.extra {
+        let ef = e.fam();
+        if let Err((loc, msg)) = guarded(|| {
+            fam::load_all(ef, &[e.clone()]);
+        }) {
+            let poisoned = health_probe();
+            return Some(Violation::new(
+                format!("C12/{}/load/panic{}", FAMILIES[ef], if poisoned.is_some() { "-poisons-manager" } else { "" }),
+                0,
+                format!("load of {:?} panicked at {}: {}", e, loc, msg),
+            ));
+        }
+        cov.hit("with_rule_of_second_family");
+    }
     // ---- load through the chosen entry point
     let ep_name = ["load", "load-for-resource", "append"][sc.entry_point as usize % 3];
     let loaded = guarded(|| match sc.entry_point % 3 {
